@@ -294,6 +294,7 @@ func (inv *Invoice) Calculate() error {
 		inv.NormalizeRegime()
 	}
 
+	applyCustomerRates(inv)
 	inv.Normalize(tax.ExtractNormalizers(inv))
 
 	if err := calculate(inv); err != nil {
